@@ -549,6 +549,31 @@ func (e *Env) evalCall(n *ast.CallExpr) Term {
 			rs = e.u().sortOf(e.typeOf(typeArgs[0]))
 		}
 		return e.st.ex.applyPureClosure(e, n, bv, args, e.eval(n.Args[0]), rs)
+	case "cloinv":
+		// cloinv(f): the invariant a closure keeps on its captured variables (`ensures [inv] E` of its contract);
+		// for a function value that is not statically known an uninterpreted predicate of the function value
+		// and the current contents of the captured-variable cells
+		var bv BVal
+		if id, ok := n.Args[0].(*ast.Ident); ok {
+			bv = e.vars[id.Name]
+		}
+		if bv.SSA != nil {
+			if fc, bindings := e.st.ex.closureContract(bv.SSA); fc != nil && (len(fc.Captures) == 0 || bindings != nil) {
+				for _, cl := range fc.Ensures {
+					if cl.Label == "inv" {
+						fe := e.st.ex.closureEnv(e.st, fc, bindings, e)
+						return fe.eval(cl.Expr)
+					}
+				}
+			}
+		}
+		sym := "cloinv"
+		for _, cs := range e.st.ex.prog.captureSorts() {
+			fam := e.st.cellFam(cs)
+			sym += "@" + sanitize(e.cur[fam.Name])
+		}
+		e.st.sc.declFun(sym, []Sort{SInt}, SBool)
+		return app(SBool, sym, e.eval(n.Args[0]))
 	case "ncalls":
 		if e.st.callsLost {
 			e.fail(n, "ncalls(): the call log is not exact after a loop")
@@ -806,7 +831,16 @@ type LocSet struct {
 	Region bool // every object of the family (type-level footprint)
 	Ghost  bool // a ghost variable
 	Guard  *Term // the location is part of the footprint only when the guard holds
+	Owner  *Term // captures(f): every cell of the family owned by (captured in) the closure value
 	Desc  string
+}
+
+// member: is object o part of this location set (object-level, ignoring ranges)
+func (ls LocSet) member(o Term) Term {
+	if ls.Owner != nil {
+		return app(SBool, "clo.owns", *ls.Owner, o)
+	}
+	return eq(o, ls.Obj)
 }
 
 // evalAssignsClause: location sets of an assigns clause (plain, or `like` another contract)
@@ -924,6 +958,14 @@ func (e *Env) evalLocSet(a ast.Expr) []LocSet {
 			if id, ok := ix.X.(*ast.Ident); ok && id.Name == "fields" {
 				return e.regionOf(e.typeOf(ix.Index), n)
 			}
+			if id, ok := ix.X.(*ast.Ident); ok && id.Name == "elems" {
+				stp, ok := e.typeOf(ix.Index).Underlying().(*types.Slice)
+				if !ok {
+					e.fail(n, "elems[T](): T must be a slice type")
+				}
+				f := e.st.elemFam(e.u().sortOf(stp.Elem()))
+				return []LocSet{{Fam: f.Name, Region: true, Obj: intLit(0), Desc: "elems[" + stp.String() + "]"}}
+			}
 			if id, ok := ix.X.(*ast.Ident); ok && id.Name == "maps" {
 				mt, ok := e.typeOf(ix.Index).Underlying().(*types.Map)
 				if !ok {
@@ -937,6 +979,17 @@ func (e *Env) evalLocSet(a ast.Expr) []LocSet {
 		switch name {
 		case "nothing":
 			return nil
+		case "captures":
+			// the variables captured by a function value (cells of every sort some closure of the program captures)
+			f := e.eval(n.Args[0])
+			e.st.declOwns()
+			var out []LocSet
+			for _, cs := range e.st.ex.prog.captureSorts() {
+				fam := e.st.cellFam(cs)
+				fv := f
+				out = append(out, LocSet{Fam: fam.Name, Obj: intLit(0), Owner: &fv, Desc: types.ExprString(n)})
+			}
+			return out
 		case "ite":
 			// conditional footprint
 			c := e.eval(n.Args[0])
@@ -1393,6 +1446,9 @@ func (st *State) emitMethodLink(e *Env, pf *PureFunc, fname string, rs Sort, rt 
 		callArgs = append(callArgs, pv)
 	}
 	body := st.expandMethodDef(e, pf, args)
+	if body.Sort != rs && body.S == "0" {
+		body = st.u().zero(rs) // untyped nil as the definition of an interface/slice-valued method
+	}
 	lhs := app(rs, fname, callArgs...)
 	st.sc.emit("(assert (forall (%s) (! (=> (= (i-type %s) %d) (= %s %s)) :pattern (%s))))", strings.Join(binders, " "), iv.S, tid, lhs.S, body.S, lhs.S)
 }
